@@ -43,6 +43,7 @@ type Case struct {
 	Allow       bool   `json:"allow"`
 	NVar        int    `json:"nvar,omitempty"`        // variations of the task (0 = none)
 	OverAt      int    `json:"over_at,omitempty"`     // the variation in which over-runners over-run (they are instant in the others)
+	TimeoutUs   int    `json:"timeout_us,omitempty"`  // a timeout below a millisecond (overrides timeout_ms): an over-runner is still cut
 	Interactive bool   `json:"interactive,omitempty"` // the task is interactive: its commands read the runner's stdin, an open pipe nobody writes to
 	Via         string `json:"via,omitempty"`         // "" = TaskRunner.Run, "scheduler" = the task is the only stage of a pipeline
 }
@@ -170,6 +171,9 @@ func runCase(c Case, root string, scale int) (err error, timing bool) {
 	tk := task.NewTask()
 	tk.Name = "t"
 	T := time.Duration(c.TimeoutMs) * time.Millisecond
+	if c.TimeoutUs > 0 {
+		T = time.Duration(c.TimeoutUs) * time.Microsecond
+	}
 	tk.Timeout = &T
 	tk.AllowFailure = c.Allow
 	for i, cm := range c.Before {
@@ -242,8 +246,26 @@ func runCase(c Case, root string, scale int) (err error, timing bool) {
 			}
 		}
 	}
+	if c.TimeoutUs > 0 {
+		// below a millisecond not even the start marker is certain to be written: nothing may complete, nothing may follow
+		ok = true
+		for _, g := range got {
+			if strings.HasPrefix(g, "E:") || g != "S:c0" {
+				ok = false
+			}
+		}
+	}
 	if !ok {
-		return fmt.Errorf("markers %v, want %v: no command may start after the over-running one, commands within the timeout are unaffected", got, want), false
+		// a command that takes real time (0.6 x timeout, an external command) and is found cut although it should have
+		// finished: either a defect or a machine so loaded that it really did over-run. The retry decides: it runs the
+		// case with three times the timeout (the command durations scale along)
+		slow := len(got) < len(want) && len(got) > 0 && strings.HasPrefix(got[len(got)-1], "S:")
+		for i := range got {
+			if i < len(want) && got[i] != want[i] {
+				slow = false
+			}
+		}
+		return fmt.Errorf("markers %v, want %v: no command may start after the over-running one, commands within the timeout are unaffected", got, want), slow && scale == 1 && c.TimeoutUs == 0
 	}
 	if (runErr != nil) != e.failed {
 		return fmt.Errorf("Run returned %v, want failed=%v (allow_failure=%v does not excuse a timeout)", runErr, e.failed, c.Allow), false
@@ -300,7 +322,9 @@ func decide(t drv.TB, part string, c Case, root string) {
 	err, timing := runCase(c, root, 1)
 	if err != nil && timing {
 		drv.Class("retry-with-5x-slack")
-		err2, _ := runCase(c, root, 5)
+		c3 := c
+		c3.TimeoutMs *= 3
+		err2, _ := runCase(c3, root, 5)
 		if err2 == nil {
 			drv.Note("a time bound was breached once and held with 5x slack (machine load?): %v", err)
 			return
@@ -455,6 +479,11 @@ func TestMatrix(t *testing.T) {
 		cases = append(cases, Case{TimeoutMs: 300, Via: "scheduler", Before: []Cmd{{kind}}, Cmds: []Cmd{{"instant"}}})
 	}
 	cases = append(cases, Case{TimeoutMs: 500, Via: "scheduler", Cmds: []Cmd{{"part"}, {"part"}, {"part"}}})
+	// timeouts below a millisecond (a bare number in a configuration is read as nanoseconds): the over-runner is cut
+	for _, us := range []int{1, 500, 999} {
+		cases = append(cases, Case{TimeoutMs: 1, TimeoutUs: us, Cmds: []Cmd{{"sleep"}}})
+		cases = append(cases, Case{TimeoutMs: 1, TimeoutUs: us, Via: "scheduler", Cmds: []Cmd{{"busy"}}})
+	}
 	// interactive tasks (stdin is an idle pipe): external commands that finish early, an over-runner
 	cases = append(cases, Case{TimeoutMs: 800, Interactive: true, Cmds: []Cmd{{"ext"}, {"ext"}, {"instant"}}})
 	cases = append(cases, Case{TimeoutMs: 300, Interactive: true, Cmds: []Cmd{{"ext"}, {"sleep"}, {"instant"}}})
